@@ -165,8 +165,16 @@ func c18Gen(r *rand.Rand, tier string) []Case {
 		} else {
 			gp = big.NewInt(0)
 		}
-		out = append(out, Case{fmt.Sprintf("tx %d %d %d %d %s %s %s %s %s %s %s ? ? ? %s # key=%d unprot=%d", typ, chain, nonce, gas, gp, tip, cap, to, amt(), data, access, base, r.Intn(8), unprot) + pick(r, []string{"", "", " from=other"})})
+		// one transaction in six is looked at without a base fee (decided without drawing: the random stream stays as it was)
+		baseS := base.String()
+		if (uint64(nonce)+uint64(gas))%6 == 0 {
+			baseS = "nil"
+		}
+		out = append(out, Case{fmt.Sprintf("tx %d %d %d %d %s %s %s %s %s %s %s ? ? ? %s # key=%d unprot=%d", typ, chain, nonce, gas, gp, tip, cap, to, amt(), data, access, baseS, r.Intn(8), unprot) + pick(r, []string{"", "", " from=other"})})
 	}
+	// fixed cases: the three types without a base fee
+	out = append(out, Case{"tx 2 11235 3 21000 0 2 10 1 5 - - ? ? ? nil # key=1 unprot=0"}, Case{"tx 1 11235 3 21000 7 0 0 1 5 - - ? ? ? nil # key=1 unprot=0"},
+		Case{"tx 0 11235 3 21000 7 0 0 1 5 - - ? ? ? nil # key=1 unprot=0"})
 	return out
 }
 
@@ -203,7 +211,14 @@ func c18Exec(c Case) (outs []string, fails []Failure, tags []string) {
 			chain := mustBig(f[2])
 			fmt.Sscan(f[3], &nonce)
 			fmt.Sscan(f[4], &gas)
-			gp, tip, cap, value, base := mustBig(f[5]), mustBig(f[6]), mustBig(f[7]), mustBig(f[9]), mustBig(f[15])
+			gp, tip, cap, value := mustBig(f[5]), mustBig(f[6]), mustBig(f[7]), mustBig(f[9])
+			// "nil": no base fee (London not active) — go-ethereum then prices a dynamic-fee transaction at its fee cap
+			var base *big.Int
+			if f[15] != "nil" {
+				base = mustBig(f[15])
+			} else {
+				tags = append(tags, "no-base-fee")
+			}
 			var to *common.Address
 			if f[8] != "-" {
 				a := c18Addr(f[8])
@@ -344,10 +359,23 @@ func c18Exec(c Case) (outs []string, fails []Failure, tags []string) {
 			if same {
 				rt = "1"
 			}
-			out = fmt.Sprintf("ok chain=%s gp=%s tip=%s cap=%s amt=%s to=%s vb=%s rb=%s sb=%s fee=%s cost=%s ep=%s ef=%s ec=%s rt=%s", chainS, gpS, tipS, capS, amtS, toS,
-				hx(vb), hx(rb), hx(sb), td.Fee(), td.Cost(), td.EffectiveGasPrice(base), td.EffectiveFee(base), td.EffectiveCost(base), rt)
-			// ---- monitors: the property's own predicate on the real code ----
 			fl := func(sig, what string) { fails = append(fails, Failure{Signature: sig, What: what, Case: c[i : i+1]}) }
+			// the effective figures, each computed under a guard: a figure the message cannot produce is a finding, not a crash
+			figure := func(name string, g func() *big.Int) (v *big.Int) {
+				defer func() {
+					if r := recover(); r != nil {
+						v = big.NewInt(-1)
+						fl("C18:effective-price:figure-panics", fmt.Sprintf("%s of a type-%d message with base fee %s panics: %v", name, typ, f[15], r))
+					}
+				}()
+				return g()
+			}
+			ep := figure("EffectiveGasPrice", func() *big.Int { return td.EffectiveGasPrice(base) })
+			ef := figure("EffectiveFee", func() *big.Int { return td.EffectiveFee(base) })
+			ec := figure("EffectiveCost", func() *big.Int { return td.EffectiveCost(base) })
+			out = fmt.Sprintf("ok chain=%s gp=%s tip=%s cap=%s amt=%s to=%s vb=%s rb=%s sb=%s fee=%s cost=%s ep=%s ef=%s ec=%s rt=%s", chainS, gpS, tipS, capS, amtS, toS,
+				hx(vb), hx(rb), hx(sb), td.Fee(), td.Cost(), ep, ef, ec, rt)
+			// ---- monitors: the property's own predicate on the real code ----
 			if !same {
 				fl("C18:hash-changed", fmt.Sprintf("hash %s → %s", tx.Hash(), tx2.Hash()))
 			}
@@ -430,14 +458,18 @@ func c18Exec(c Case) (outs []string, fails []Failure, tags []string) {
 				fl("C18:fee", fmt.Sprintf("message fee %s, gasPrice×gas %s", td.Fee(), wantFee))
 			}
 			wantEp := new(big.Int).Set(tx.GasPrice())
-			if typ == 2 {
+			if typ == 2 && base != nil {
 				wantEp = new(big.Int).Add(tx.GasTipCap(), base)
 				if wantEp.Cmp(tx.GasFeeCap()) > 0 {
 					wantEp = new(big.Int).Set(tx.GasFeeCap())
 				}
 			}
-			if td.EffectiveGasPrice(base).Cmp(wantEp) != 0 {
-				fl("C18:effective-price", fmt.Sprintf("message effective price %s, min(tip+base, cap) %s", td.EffectiveGasPrice(base), wantEp))
+			// go-ethereum's own figure (the message go-ethereum derives from the transaction), where it can be computed
+			if m, e := tx.AsMessage(signer, base); e == nil && m.GasPrice().Cmp(wantEp) != 0 {
+				fl("C18:harness:reference-figure", fmt.Sprintf("go-ethereum prices the transaction at %s, the harness expected %s", m.GasPrice(), wantEp))
+			}
+			if ep.Sign() >= 0 && ep.Cmp(wantEp) != 0 {
+				fl("C18:effective-price", fmt.Sprintf("message effective price %s, go-ethereum's %s (base fee %s)", ep, wantEp, f[15]))
 			}
 			_ = sdk.AccAddress{}
 		}()
